@@ -7,6 +7,8 @@ use aldrin_core::ProtocolVersion;
 use futures_channel::mpsc;
 #[cfg(feature = "statistics")]
 use futures_channel::oneshot;
+#[cfg(all(feature = "verif-hooks", not(feature = "statistics")))]
+use futures_channel::oneshot;
 
 #[derive(Debug)]
 pub(crate) enum ConnectionEvent {
@@ -27,4 +29,7 @@ pub(crate) enum ConnectionEvent {
 
     #[cfg(feature = "statistics")]
     TakeStatistics(oneshot::Sender<BrokerStatistics>),
+
+    #[cfg(feature = "verif-hooks")]
+    VerifSnapshot(oneshot::Sender<crate::verif::VerifSnapshot>),
 }
